@@ -1313,6 +1313,77 @@ async def s_control_two_sessions() -> List[str]:
     return viol
 
 
+async def s_dotted_paths() -> List[str]:
+    """helpers.resolve_dotted_path (the converter of every callable-typed command argument, C17) on a freshly built package
+    tree, for every combination of "already imported / reachable as an attribute of its parent / not imported yet" of the
+    intermediate packages - the classes of situations the verifier's counter-models of the loop invariant fall into.
+    Oracle: the object importlib + getattr give for the same dotted path."""
+    import importlib
+    import os
+    import shutil
+    import sys
+    import tempfile
+
+    from asyncio_taskpool.internals.helpers import resolve_dotted_path
+
+    viol: List[str] = []
+    root = tempfile.mkdtemp(prefix="dotted_")
+    try:
+        n = 0
+        for preload_sub in (False, True):
+            for preload_leaf in (False, True):
+                for init_imports_sub in (False, True):
+                    n += 1
+                    pkg = f"vpkg{n}"
+                    os.makedirs(os.path.join(root, pkg, "sub", "deep"))
+                    open(os.path.join(root, pkg, "__init__.py"), "w").write("from . import sub\n" if init_imports_sub else "")
+                    open(os.path.join(root, pkg, "sub", "__init__.py"), "w").write("")
+                    open(os.path.join(root, pkg, "sub", "deep", "__init__.py"), "w").write("")
+                    open(os.path.join(root, pkg, "sub", "deep", "mod.py"), "w").write("class K:\n    attr = 41\n\ndef work():\n    return 1\n")
+                    open(os.path.join(root, pkg, "other.py"), "w").write("def job():\n    return 2\n")
+                    if root not in sys.path:
+                        sys.path.insert(0, root)
+                    importlib.invalidate_caches()
+                    if preload_sub:
+                        importlib.import_module(f"{pkg}.sub")
+                    if preload_leaf:
+                        importlib.import_module(f"{pkg}.sub.deep.mod")
+                    for path in (f"{pkg}.other.job", f"{pkg}.sub.deep.mod.work", f"{pkg}.sub.deep.mod.K.attr", f"{pkg}.sub.deep", f"{pkg}"):
+                        tag = f"[sub preloaded={preload_sub}, leaf preloaded={preload_leaf}, package imports sub={init_imports_sub}] {path.replace(pkg, 'pkg')}"
+                        try:
+                            got = resolve_dotted_path(path)
+                        except Exception as e:
+                            viol.append(f"{tag}: a well-formed dotted path is rejected: {type(e).__name__}: {e}")
+                            continue
+                        parts = path.split(".")
+                        want = None
+                        for k in range(len(parts), 0, -1):
+                            try:
+                                want = importlib.import_module(".".join(parts[:k]))
+                            except ImportError:
+                                continue
+                            for a in parts[k:]:
+                                want = getattr(want, a)
+                            break
+                        if got is not want:
+                            viol.append(f"{tag}: resolved to {got!r}, expected {want!r}")
+        for bad in ("vpkg1.nope.thing", "vpkg1.other.nothing", "no_such_top_level_module_xyz.f"):
+            try:
+                r = resolve_dotted_path(bad)
+                viol.append(f"{bad}: a path that does not exist resolved to {r!r}")
+            except (ImportError, AttributeError):
+                pass
+            except Exception as e:
+                viol.append(f"{bad}: unexpected {type(e).__name__}: {e}")
+    finally:
+        for m in [m for m in sys.modules if m.startswith("vpkg")]:
+            del sys.modules[m]
+        if root in sys.path:
+            sys.path.remove(root)
+        shutil.rmtree(root, ignore_errors=True)
+    return viol
+
+
 SCENARIOS: Dict[str, Callable] = {
     "lifecycle_mix": s_lifecycle_mix,
     "exception_in_body_map": s_exception_in_body_map,
@@ -1333,6 +1404,7 @@ SCENARIOS: Dict[str, Callable] = {
     "double_cancel_turns": s_double_cancel_turns,
     "flush_with_cancelled_meta": s_flush_with_cancelled_meta,
     "pool_size_assign": s_pool_size_assign,
+    "dotted_paths": s_dotted_paths,
 }
 
 BY_PROPERTY = {
@@ -1353,7 +1425,7 @@ BY_PROPERTY = {
     "C15": ["lock_while_spawner_waits", "pool_size_assign", "blocked_spawners"],
     "C20": ["queue"],
     "C16": ["control_session", "control_two_sessions", "control_contracts"],
-    "C17": ["control_session", "control_two_sessions", "control_contracts"],
+    "C17": ["control_session", "control_two_sessions", "control_contracts", "dotted_paths"],
     "C18": ["control_session", "control_two_sessions", "control_contracts"],
 }
 
@@ -1368,7 +1440,7 @@ def candidates(prop: str, obligation: str, path: str, all_failed) -> List[str]:
              ("lock", "lock_unlock"), ("_arg_consumer", "exception_in_body_map"), ("release_callback", "exception_in_body_map"), ("_apply_spawner", "blocked_spawners"),
              ("_start_num", "stop_lifo"), ("queue_context", "queue"), ("pool_size", "pool_size_assign"), ("G11", "pool_names"), ("_add_pool", "pool_names"), ("__str__", "pool_names"), ("pool_size", "lock_while_spawner_waits"), ("_generate_group_name", "group_cancel"),
              ("apply", "blocked_spawners"), ("map", "exception_in_body_map"), ("add_function_arg", "control_contracts"), ("get_first_doc_line", "control_contracts"),
-             ("_get_arg_type_wrapper", "control_contracts"), ("_parse_command", "control_contracts"), ("_and_respond", "control_contracts"), ("return_or_exception", "control_session")]
+             ("_get_arg_type_wrapper", "control_contracts"), ("_parse_command", "control_contracts"), ("_and_respond", "control_contracts"), ("return_or_exception", "control_session"), ("resolve_dotted_path", "dotted_paths")]
     for key, sc in hints:
         if key in text and sc not in first:
             first.append(sc)
